@@ -6,6 +6,7 @@ package jen
 // counterexample only counts if these native oracles agree (replay).
 
 import (
+	"go/build"
 	"go/constant"
 	"go/format"
 	"os"
@@ -220,3 +221,21 @@ func specIsGoReserved(s string) bool {
 
 // specQuote: the import path as a Go string literal (strconv.Quote).
 func specQuote(s string) string { return strconv.Quote(s) }
+
+// specIsStdPath / specStdName: the installed toolchain's own view of its standard
+// library (go/build on GOROOT/src), not jennifer's table.
+func specIsStdPath(p string) bool {
+	pkg, err := build.Default.Import(p, "", build.FindOnly)
+	return err == nil && pkg.Goroot
+}
+
+func specStdName(p string) string {
+	pkg, err := build.Default.Import(p, "", 0)
+	if err != nil && pkg == nil {
+		return ""
+	}
+	if pkg == nil || !pkg.Goroot {
+		return ""
+	}
+	return pkg.Name
+}
